@@ -112,14 +112,47 @@ package asset
 //@ ensures[C10,C12] "listed-names-are-files" result1 == nil ==> (forall j :: 0 <= j && j < len(result0) ==> direntry(r.base, sconcat(result0[j], ".csv")))
 //@ loop#0 invariant forall j :: 0 <= j && j < len(assets) ==> direntry(r.base, sconcat(assets[j], ".csv"))
 
+// ---- FileSystemRepository over the ghost file system of CSV files (helper: view(csvfs)): the asset `name` is the file
+// <base>/<name>.csv; reads and appends behave on that file's rows as the in-memory repository does on its map entry
+//@ macro csvof(r, name) = pathjoin(r.base, sconcat(name, ".csv"))
+// abstraction function: the repository's map is the ghost csv file system seen through <base>/<name>.csv
+//@ absfn FileSystemRepository :: csvdir(view(csvfs), self.base)
+//@ func FileSystemRepository.getCsvFileName
+//@ ensures[C10] result == csvof(r, name)
+
+//@ func FileSystemRepository.Get
+//@ ensures[C10] (result1 == nil) == has(view(csvfs), csvof(r, name))
+//@ ensures[C10] result1 == nil ==> consumed(result0) == 0 && closed(result0) && len(result0) == len(view(csvfs)[csvof(r, name)])
+//@ ensures[C10] result1 == nil ==> (forall k :: 0 <= k && k < len(result0) ==> result0[k] == view(csvfs)[csvof(r, name)][k])
+//@ ensures[C10] result1 != nil ==> len(result0) == 0
+
+//@ func FileSystemRepository.GetSince
+//@ ensures[C10] (result1 == nil) == has(view(csvfs), csvof(r, name))
+//@ ensures[C10] result1 == nil ==> len(result0) == cntsince(view(csvfs)[csvof(r, name)], date, len(view(csvfs)[csvof(r, name)])) && closed(result0)
+//@ ensures[C10] result1 == nil ==> (forall k :: 0 <= k && k < len(view(csvfs)[csvof(r, name)]) ==> (view(csvfs)[csvof(r, name)][k].Date >= date ==> result0[cntsince(view(csvfs)[csvof(r, name)], date, k)] == view(csvfs)[csvof(r, name)][k]))
+//@ ensures[C10] result1 != nil ==> len(result0) == 0
+//@ use fcount_since(arg(Filter, 0, 1), view(csvfs)[csvof(r, name)], date)
+
+//@ func FileSystemRepository.LastDate
+//@ ensures[C10] (result1 == nil) == (has(view(csvfs), csvof(r, name)) && len(view(csvfs)[csvof(r, name)]) > 0)
+//@ ensures[C10] result1 == nil ==> result0 == view(csvfs)[csvof(r, name)][len(view(csvfs)[csvof(r, name)]) - 1].Date
+
+//@ func FileSystemRepository.Append
+//@ requires consumed(snapshots) == 0
+//@ modifies csvfs
+//@ ensures[C10] result == nil ==> has(view(csvfs), csvof(r, name)) && consumed(snapshots) == len(snapshots) && len(view(csvfs)[csvof(r, name)]) == (old(has(view(csvfs), csvof(r, name))) ? old(len(view(csvfs)[csvof(r, name)])) : 0) + len(snapshots)
+//@ ensures[C10] result == nil && old(has(view(csvfs), csvof(r, name))) ==> (forall k :: 0 <= k && k < old(len(view(csvfs)[csvof(r, name)])) ==> view(csvfs)[csvof(r, name)][k] == old(view(csvfs)[csvof(r, name)][k]))
+//@ ensures[C10] result == nil ==> (forall k :: 0 <= k && k < len(snapshots) ==> view(csvfs)[csvof(r, name)][(old(has(view(csvfs), csvof(r, name))) ? old(len(view(csvfs)[csvof(r, name)])) : 0) + k] == snapshots[k])
+//@ ensures[C10] forall n str :: n != csvof(r, name) ==> has(view(csvfs), n) == old(has(view(csvfs), n)) && sameslice(view(csvfs)[n], old(view(csvfs)[n]))
+
 // ---- interface Repository over the ghost abstract state view(self): asset name -> ordered snapshots (C10, C12) ------
 //@ func interface Repository.LastDate
-//@ attr refinement = asset.InMemoryRepository
+//@ attr refinement = asset.InMemoryRepository, asset.FileSystemRepository
 //@ ensures[C10,C12] (result1 == nil) == (has(view(self), p0) && len(view(self)[p0]) > 0)
 //@ ensures[C10,C12] result1 == nil ==> result0 == view(self)[p0][len(view(self)[p0]) - 1].Date
 
 //@ func interface Repository.GetSince
-//@ attr refinement = asset.InMemoryRepository
+//@ attr refinement = asset.InMemoryRepository, asset.FileSystemRepository
 //@ ensures[C10,C12] result1 == nil ==> has(view(self), p0) && consumed(result0) == 0 && closed(result0) && len(result0) == cntsince(view(self)[p0], p1, len(view(self)[p0]))
 //@ ensures[C10,C12] result1 == nil ==> (forall k :: 0 <= k && k < len(view(self)[p0]) ==> (view(self)[p0][k].Date >= p1 ==> result0[cntsince(view(self)[p0], p1, k)] == view(self)[p0][k]))
 //@ ensures[C10,C12] result1 != nil ==> len(result0) == 0
@@ -127,7 +160,7 @@ package asset
 //@ ensures "data-assumption" result1 == nil ==> (forall k :: 0 <= k && k < len(result0) ==> result0[k].Close > 0)
 
 //@ func interface Repository.Append
-//@ attr refinement = asset.InMemoryRepository
+//@ attr refinement = asset.InMemoryRepository, asset.FileSystemRepository
 //@ requires consumed(p1) == 0
 //@ modifies self
 //@ ensures[C10,C12] forall n str :: n != p0 ==> has(view(self), n) == old(has(view(self), n)) && sameslice(view(self)[n], old(view(self)[n]))
@@ -174,3 +207,30 @@ package asset
 //@ guarantees[C19] "non-success-status-is-an-error" result1 == nil ==> res(http_Client_Do, 0, 0).StatusCode == 200
 //@ loop#0 invariant !closed(snapshots) && extrem(decoder) >= 0
 //@ loop#0 decreases extrem(decoder)
+
+// ---- SQLRepository reads relative to the assumed behaviour of database/sql (C10): sqlrs(stmt, args...) is the result
+// set a conforming driver returns for the prepared statement run with those arguments; every row becomes one snapshot,
+// columns in the order date, open, high, low, close, volume; the statement used and its arguments are part of the
+// contract (which rows a statement selects is the dialect's and the driver's business)
+//@ func SQLRepository.GetSince
+//@ ensures[C10] "one-snapshot-per-row" result1 == nil ==> closed(result0) && len(result0) == sqlnrows(sqlrs(s.getSinceQuery, name, date))
+//@ ensures[C10] "columns-in-order" result1 == nil ==> (forall k :: 0 <= k && k < len(result0) && sqlscanok(sqlrs(s.getSinceQuery, name, date), k) ==> result0[k].Date == sqlcolI(sqlrs(s.getSinceQuery, name, date), k, 0) && result0[k].Open == sqlcolR(sqlrs(s.getSinceQuery, name, date), k, 1) && result0[k].High == sqlcolR(sqlrs(s.getSinceQuery, name, date), k, 2) && result0[k].Low == sqlcolR(sqlrs(s.getSinceQuery, name, date), k, 3) && result0[k].Close == sqlcolR(sqlrs(s.getSinceQuery, name, date), k, 4) && result0[k].Volume == sqlcolR(sqlrs(s.getSinceQuery, name, date), k, 5))
+//@ loop#0 invariant !closed(snapshots) && sqlcur(rows) == sent(snapshots) && 0 <= sqlcur(rows) && sqlcur(rows) <= sqlnrows(sqlrs(s.getSinceQuery, name, date))
+//@ loop#0 invariant forall k :: 0 <= k && k < sent(snapshots) && sqlscanok(sqlrs(s.getSinceQuery, name, date), k) ==> snapshots[k].Date == sqlcolI(sqlrs(s.getSinceQuery, name, date), k, 0) && snapshots[k].Open == sqlcolR(sqlrs(s.getSinceQuery, name, date), k, 1) && snapshots[k].High == sqlcolR(sqlrs(s.getSinceQuery, name, date), k, 2) && snapshots[k].Low == sqlcolR(sqlrs(s.getSinceQuery, name, date), k, 3) && snapshots[k].Close == sqlcolR(sqlrs(s.getSinceQuery, name, date), k, 4) && snapshots[k].Volume == sqlcolR(sqlrs(s.getSinceQuery, name, date), k, 5)
+//@ loop#0 decreases sqlnrows(sqlrs(s.getSinceQuery, name, date)) - sqlcur(rows)
+
+// Get reads everything from 2000-01-01 UTC on (946684800): the property's date range
+//@ func SQLRepository.Get
+//@ ensures[C10] "one-snapshot-per-row" result1 == nil ==> closed(result0) && len(result0) == sqlnrows(sqlrs(s.getSinceQuery, name, 946684800))
+//@ ensures[C10] "columns-in-order" result1 == nil ==> (forall k :: 0 <= k && k < len(result0) && sqlscanok(sqlrs(s.getSinceQuery, name, 946684800), k) ==> result0[k].Date == sqlcolI(sqlrs(s.getSinceQuery, name, 946684800), k, 0) && result0[k].Open == sqlcolR(sqlrs(s.getSinceQuery, name, 946684800), k, 1) && result0[k].High == sqlcolR(sqlrs(s.getSinceQuery, name, 946684800), k, 2) && result0[k].Low == sqlcolR(sqlrs(s.getSinceQuery, name, 946684800), k, 3) && result0[k].Close == sqlcolR(sqlrs(s.getSinceQuery, name, 946684800), k, 4) && result0[k].Volume == sqlcolR(sqlrs(s.getSinceQuery, name, 946684800), k, 5))
+
+// the last date is the first column of the single row of the last-date statement; no row (or a failed scan) is an error
+//@ func SQLRepository.LastDate
+//@ ensures[C10] "no-row-is-an-error" sqlnrows(sqlrs(s.lastDateQuery, name)) == 0 ==> result1 != nil
+//@ ensures[C10] "date-of-the-row" result1 == nil ==> sqlnrows(sqlrs(s.lastDateQuery, name)) > 0 && result0 == sqlcolI(sqlrs(s.lastDateQuery, name), 0, 0)
+
+// every row of the assets statement is one listed name, in row order
+//@ func SQLRepository.Assets
+//@ ensures[C10] "one-name-per-row" result1 == nil ==> len(result0) == sqlnrows(sqlrs(s.assetsQuery)) && (forall k :: 0 <= k && k < len(result0) ==> result0[k] == sqlcolS(sqlrs(s.assetsQuery), k, 0))
+//@ loop#0 invariant len(assets) == sqlcur(rows) && 0 <= sqlcur(rows) && sqlcur(rows) <= sqlnrows(sqlrs(s.assetsQuery)) && (forall k :: 0 <= k && k < len(assets) ==> assets[k] == sqlcolS(sqlrs(s.assetsQuery), k, 0))
+//@ loop#0 decreases sqlnrows(sqlrs(s.assetsQuery)) - sqlcur(rows)
